@@ -56,6 +56,29 @@ def directed(rng: random.Random, tier: str):
                 hs.round([(5, hs.publish(100, b"payload!", src_mod=23))], sorted(wr), 1)
                 hs.round([(5, hs.publish(101, b"after", src_mod=23))], [1, 5], 2)
                 out.append(hs)
+    # nobody is a logger and nobody subscribed to FAILED_MESSAGE by its id: the only listener is an ordinary module
+    # subscribed to ALL message types (kept writable by the history) - it is "subscribed to FAILED_MESSAGE" all the same
+    for how in ("unwritable", "fault"):
+        for extra_failed_sub in (False, True):
+            for lvl in (60, 40):
+                hs = C.History(loglevel=lvl, tag="wildcard-listener")
+                hs.plain_monitor = True
+                for _ in range(4):
+                    hs.round([], [], 0, accept=True)
+                w = [1, 2, 3, 4]
+                hs.round([(1, hs.connect_v2(logger=0, mod_id=12))], w, 0)
+                hs.round([(1, hs.sub("sub", C.ALL))], w, 0)
+                hs.round([(2, hs.connect_v1(src_mod=11)), (3, hs.connect_v1(src_mod=13)), (4, hs.connect_v1(src_mod=14))], w, 0)
+                hs.round([(2, hs.sub("sub", 5000))], w, 0)
+                if extra_failed_sub:
+                    hs.round([(4, hs.sub("sub", C.MT["FAILED_MESSAGE"]))], w, 0)
+                if how == "fault":
+                    hs.fault(2, 0)
+                    hs.round([(3, hs.publish(5000, b"payload!", src_mod=13))], w, 1)
+                else:
+                    hs.round([(3, hs.publish(5000, b"payload!", src_mod=13))], [1, 3, 4], 1)
+                hs.round([(3, hs.publish(5001, b"after", src_mod=13))], [1, 3, 4], 2)
+                out.append(hs)
     return out
 
 
